@@ -414,11 +414,23 @@ def run(ctx, rep):
     loop_blocks = set().union(*[set(bd) for h, bd in dec.natural_loops()]) if nloops else set()
     nexts = [b for b, t_ in dec.calls(loop_blocks) if callee_name(t_).endswith(('Iterator>::next', 'Iterator::next'))] if loop_blocks else []
     flag_sets = {}
+    enum_sets = {}
     for b in loop_blocks:
         for st_ in dec.blocks[b]['stmts']:
             if st_['k'] == 'assign' and not st_['place']['proj'] and st_['rv']['k'] == 'use' and st_['rv']['op'].get('k') == 'const' and st_['rv']['op'].get('ty') == 'bool':
                 flag_sets.setdefault(st_['place']['local'], set()).add(st_['rv']['op'].get('int'))
-    single_consume = len(nexts) >= 2 or any(v == {0, 1} for v in flag_sets.values())
+            # ... the flag as a two-state enum (`state = State::Backslash` / `state = State::Text`)
+            if st_['k'] == 'assign' and not st_['place']['proj']:
+                rv_ = st_['rv']
+                var_ = None
+                if rv_['k'] == 'aggregate' and rv_.get('variant') and not rv_.get('ops') and rv_.get('adt') in F.adts:
+                    var_ = rv_['variant']
+                elif rv_['k'] == 'use' and rv_['op'].get('k') == 'const' and rv_['op'].get('variant') and rv_['op'].get('ty') in F.adts:
+                    var_ = rv_['op']['variant']
+                if var_ is not None:
+                    enum_sets.setdefault(st_['place']['local'], set()).add(var_)
+    # an enum-valued state counts when the variable is one that is carried around the loop (read again in a later turn)
+    single_consume = len(nexts) >= 2 or any(v == {0, 1} for v in flag_sets.values()) or any(len(v) >= 2 for v in enum_sets.values())
     rep.ob(single_consume, 'R08.5', 'parser::Parser::parse_string_expression', 'escape consumes next char',
            'handling a backslash takes the following character out of the normal path (second next() in the step, or a pending flag)', dloc)
 
